@@ -1384,6 +1384,9 @@ func (vc *FnVC) next(st *State, n *ssa.Next) *Val {
 func (vc *FnVC) runDefers(st *State, rd *ssa.RunDefers) {
 	for i := len(vc.deferred) - 1; i >= 0; i-- {
 		d := vc.deferred[i]
+		if !reaches(d.Block(), rd.Block()) {
+			continue // no path from the defer statement to this return: it was never registered here
+		}
 		if !d.Block().Dominates(rd.Block()) {
 			vc.note("conditional defer approximated by havoc of the callee's footprint")
 			ws, all := vc.G.callWrites(vc.fn, d.Common())
@@ -1678,4 +1681,23 @@ func (vc *FnVC) preservesCheck(st *State, env *Env) {
 			vc.oblige(st, "preserves", tn+"/"+shortKey(lf.key), goal, "no pre-existing "+tn+" object is modified (field heap "+lf.key+")")
 		}
 	}
+}
+
+// reaches reports whether block to can be reached from block from in the control-flow graph.
+func reaches(from, to *ssa.BasicBlock) bool {
+	seen := map[*ssa.BasicBlock]bool{}
+	stack := []*ssa.BasicBlock{from}
+	for len(stack) > 0 {
+		b := stack[len(stack)-1]
+		stack = stack[:len(stack)-1]
+		if b == to {
+			return true
+		}
+		if seen[b] {
+			continue
+		}
+		seen[b] = true
+		stack = append(stack, b.Succs...)
+	}
+	return false
 }
